@@ -176,6 +176,7 @@ func (p *rawPeer) script(pred *rawPeer) {
 			return
 		}
 	}
+	p.extras(phaseEarly, false) // sent right behind the peer's own registration, before its reply
 	ctx, cancel := context.WithTimeout(context.Background(), 20*time.Second)
 	defer cancel()
 	start := time.Now()
@@ -291,9 +292,58 @@ func (p *rawPeer) recordEvent(e api.Event, pod *api.PodSandbox) {
 
 // --- api.PluginService -------------------------------------------------------------------
 
+// extras sends the peer's further RegisterPlugin calls of one phase. In-handler phases are
+// sent synchronously, each abandoned after 40 ms (the unchanged runtime answers the second
+// call on a connection through its buffered channel and never answers a third one); the
+// other phases are sent from a goroutine of their own.
+func (p *rawPeer) extras(phase string, inHandler bool) {
+	if !allowsExtra(p.spec.Stall) {
+		return
+	}
+	for _, e := range p.spec.Extra {
+		if e.Phase != phase {
+			continue
+		}
+		e := e
+		call := func(wait time.Duration) {
+			ctx, cancel := context.WithTimeout(context.Background(), wait)
+			start := time.Now()
+			_, err := p.rt.RegisterPlugin(ctx, &api.RegisterPluginRequest{PluginName: e.Name, PluginIdx: e.Idx})
+			cancel()
+			a := AttemptRecord{Name: e.Name, Idx: e.Idx, AtMs: p.ms(start), TookMs: float64(time.Since(start).Microseconds()) / 1000, Err: "accepted"}
+			if err != nil {
+				a.Err = err.Error()
+			}
+			a.Err = phase + ": " + a.Err
+			p.mu.Lock()
+			p.attempts = append(p.attempts, a)
+			p.mu.Unlock()
+		}
+		if inHandler {
+			call(40 * time.Millisecond)
+		} else {
+			go func() {
+				if phase == phaseEarly {
+					time.Sleep(200 * time.Microsecond) // behind the peer's own registration, as a rule
+				}
+				call(300 * time.Millisecond)
+			}()
+		}
+	}
+}
+
 func (p *rawPeer) Configure(ctx context.Context, req *api.ConfigureRequest) (*api.ConfigureResponse, error) {
 	p.record(Call{Kind: "Configure"})
+	p.extras(phaseInConfigure, true)
+	defer p.extras(phaseAfterConfigure, false)
 	switch p.spec.Stall {
+	case stallCfgClose:
+		p.mu.Lock()
+		p.tearing = true // the close that follows is the peer's own
+		p.mu.Unlock()
+		p.mux.Close()
+		p.conn.Close()
+		return nil, errors.New("verif: plugin closed its connection instead of answering Configure")
 	case stallCfgHang:
 		<-p.release // ignores its context: never answers while the case runs
 		return nil, errors.New("verif: released at teardown")
@@ -306,6 +356,7 @@ func (p *rawPeer) Configure(ctx context.Context, req *api.ConfigureRequest) (*ap
 func (p *rawPeer) Synchronize(ctx context.Context, req *api.SynchronizeRequest) (*api.SynchronizeResponse, error) {
 	p.record(Call{Kind: "Synchronize"})
 	p.settle()
+	p.extras(phaseInSynchronize, true)
 	if p.spec.Stall == stallSyncErr {
 		return nil, answerError(p.spec, "to synchronize")
 	}
